@@ -1552,4 +1552,5 @@ def mk_evaluator(fi: FuncInfo, **kw):
     ev = Evaluator(**kw)
     ev.globals = module_consts(fi.module)
     ev.handler_names = lambda h: handler_class_names(fi, h)
+    ev.private_funcs = {k for k, f in fi.module.funcs.items() if "." not in k and k.startswith("_") and not k.startswith("__")}
     return ev
